@@ -5,4 +5,5 @@ let all : (string * (Model.event list -> bool)) list = [
   ("C12_nowait", Model.chk_C12_nowait);
   ("C03", Model.chk_C03);
   ("C14", Model.chk_C14);
+  ("C13", Model.chk_C13);
 ]
